@@ -242,6 +242,13 @@ fn check(id: &str, tier: Tier, seed: u64, args: &[String]) -> i32 {
                     e.0 += 1;
                     continue;
                 }
+                Verdict::Pass | Verdict::Skip(_) if f.class == "abort/SIGKILL" => {
+                    // the stall watchdog killed a worker, but the same case completes in a fresh process:
+                    // a real hang is deterministic and would hang again, so this was machine load
+                    *probes.entry("watchdog_kill_not_reproduced".into()).or_insert(0) += 1;
+                    println!("  note: run {} of {} was killed by the stall watchdog but completes in a fresh process (machine load); not a finding", f.idx, sc.name());
+                    continue;
+                }
                 other => {
                     harness_errors.push(format!("{}: run {} reported {} but a fresh process says {:?} (non-determinism)", sc.name(), f.idx, f.class, other));
                     continue;
@@ -266,6 +273,19 @@ fn check(id: &str, tier: Tier, seed: u64, args: &[String]) -> i32 {
                 println!("KNOWN-FINDING: property={id} {} ({}; hit {n} times this run, e.g. {d})", f.what, f.id);
             } else {
                 println!("KNOWN-FINDING: property={id} {} ({}; listed, not reached by this run)", f.what, f.id);
+            }
+        }
+    }
+    // part C of C20: bin/check runs the compile-time Send + Sync probe and hands over its verdict
+    if id == "C20" {
+        match std::env::var("VERIF_PROBE_FAIL") {
+            Ok(p) if !p.is_empty() => {
+                println!("  violation class=C20/not-send-sync\n    detail: the Send + Sync probe does not compile: ZipArchive<R> is no longer Send + Sync for a Send + Sync reader (compiler output in the replay file)");
+                violations.push(("C20/not-send-sync".into(), p));
+                *probes.entry("sendsync_probe_compiles".into()).or_insert(0) += 0;
+            }
+            _ => {
+                *probes.entry("sendsync_probe_compiles".into()).or_insert(0) += 1;
             }
         }
     }
